@@ -248,6 +248,8 @@ pub struct WriterResult {
 
 #[derive(Debug, Serialize, Deserialize, Clone)]
 pub struct FollowResult {
+    /// when `Store::read` was called / when it had returned
+    pub called_at_us: u64,
     pub subscribed_at_us: u64,
     pub items: Vec<crate::exec::FollowItem>,
     pub closed: bool,
@@ -272,11 +274,12 @@ pub struct ScenarioResult {
     pub ended_at_us: u64,
 }
 
-struct FollowShared {
+pub struct FollowShared {
     items: Mutex<Vec<crate::exec::FollowItem>>,
     closed: AtomicBool,
     closed_at: Mutex<Option<u64>>,
     subscribed_at: Mutex<u64>,
+    called_at: Mutex<u64>,
 }
 
 pub fn run_scenario(ex: &mut crate::exec::Executor, spec: ScenarioSpec) -> serde_json::Value {
@@ -293,6 +296,9 @@ pub fn run_scenario(ex: &mut crate::exec::Executor, spec: ScenarioSpec) -> serde
         st.hold_timeouts = 0;
     }
     let now_us = move || t0.elapsed().as_micros() as u64;
+    if let Some(old) = ex.scenario_stop.take() {
+        old.store(true, Ordering::SeqCst);
+    }
     let stop = Arc::new(AtomicBool::new(false));
     let writers_done = Arc::new(AtomicBool::new(false));
     let handle = ex.rt.handle().clone();
@@ -306,6 +312,7 @@ pub fn run_scenario(ex: &mut crate::exec::Executor, spec: ScenarioSpec) -> serde
             closed: AtomicBool::new(false),
             closed_at: Mutex::new(None),
             subscribed_at: Mutex::new(0),
+            called_at: Mutex::new(0),
         });
         fshared.push(sh.clone());
         let store = ex.store.clone();
@@ -318,6 +325,7 @@ pub fn run_scenario(ex: &mut crate::exec::Executor, spec: ScenarioSpec) -> serde
                 std::thread::sleep(Duration::from_micros(fs.start_delay_us));
             }
             let opts = fs.opts.to_xs();
+            *sh.called_at.lock().unwrap() = t0.elapsed().as_micros() as u64;
             let mut rx = handle.block_on(async { store.read(opts).await });
             *sh.subscribed_at.lock().unwrap() = t0.elapsed().as_micros() as u64;
             let store2 = store.clone();
@@ -443,7 +451,8 @@ pub fn run_scenario(ex: &mut crate::exec::Executor, spec: ScenarioSpec) -> serde
         .map(|t| t.join().unwrap_or(PollResult { polls: vec![] }))
         .collect();
 
-    // wait for the followers
+    // wait for the followers: until each has `expect_min` frames (or is closed), at most
+    // max_wait_ms; then until nothing new has arrived for settle_ms
     let deadline = Instant::now() + Duration::from_millis(spec.max_wait_ms as u64);
     loop {
         let mut ok = true;
@@ -460,7 +469,18 @@ pub fn run_scenario(ex: &mut crate::exec::Executor, spec: ScenarioSpec) -> serde
         std::thread::sleep(Duration::from_millis(1));
     }
     if spec.settle_ms > 0 {
-        std::thread::sleep(Duration::from_millis(spec.settle_ms as u64));
+        let quiet = Duration::from_millis(spec.settle_ms as u64);
+        let hard = Instant::now() + Duration::from_secs(5);
+        let mut last_counts: Vec<usize> = fshared.iter().map(|sh| sh.items.lock().unwrap().len()).collect();
+        let mut since = Instant::now();
+        while since.elapsed() < quiet && Instant::now() < hard {
+            std::thread::sleep(Duration::from_millis(1));
+            let counts: Vec<usize> = fshared.iter().map(|sh| sh.items.lock().unwrap().len()).collect();
+            if counts != last_counts {
+                last_counts = counts;
+                since = Instant::now();
+            }
+        }
     }
     let final_all: Vec<WFrame> = ex
         .store
@@ -470,13 +490,16 @@ pub fn run_scenario(ex: &mut crate::exec::Executor, spec: ScenarioSpec) -> serde
     let followers: Vec<FollowResult> = fshared
         .iter()
         .map(|sh| FollowResult {
+            called_at_us: *sh.called_at.lock().unwrap(),
             subscribed_at_us: *sh.subscribed_at.lock().unwrap(),
             items: sh.items.lock().unwrap().clone(),
             closed: sh.closed.load(Ordering::SeqCst),
             closed_at_us: *sh.closed_at.lock().unwrap(),
         })
         .collect();
-    stop.store(true, Ordering::SeqCst);
+    // the followers stay alive (ScenarioPeek); they are stopped when the next scenario starts
+    ex.scenario_followers = fshared.clone();
+    ex.scenario_stop = Some(stop.clone());
     let (events, hold_timeouts) = {
         let mut st = d.state.lock().unwrap();
         st.rules.clear();
@@ -494,4 +517,19 @@ pub fn run_scenario(ex: &mut crate::exec::Executor, spec: ScenarioSpec) -> serde
         ended_at_us: now_us(),
     };
     json!({ "ok": serde_json::to_value(res).unwrap() })
+}
+
+pub fn peek(ex: &crate::exec::Executor) -> serde_json::Value {
+    let followers: Vec<FollowResult> = ex
+        .scenario_followers
+        .iter()
+        .map(|sh| FollowResult {
+            called_at_us: *sh.called_at.lock().unwrap(),
+            subscribed_at_us: *sh.subscribed_at.lock().unwrap(),
+            items: sh.items.lock().unwrap().clone(),
+            closed: sh.closed.load(Ordering::SeqCst),
+            closed_at_us: *sh.closed_at.lock().unwrap(),
+        })
+        .collect();
+    json!({ "ok": serde_json::to_value(followers).unwrap() })
 }
